@@ -21,6 +21,8 @@ RULE = ('cases = (shape up to 4-D with 0-6 cells per dimension, per-dimension bi
         'on plain arrays. non-trivial = non-empty selection with a negative or out-of-range '
         'bound on an edges dimension, or a squeeze removing >=1 and keeping >=1 dimension; '
         'distinct = structural hash of the case')
+RULE_ADDENDA = (" Also: grids that decrease, repeat an edge or wrap around; dimension names '', ' ', '0', 'None'; C / Fortran / strided / negative-stride layouts; two-step history squeeze-then-slice; a second slice of the same dataset run to completion at a generated call boundary inside dataset.py during the first one (what a second thread may do).")
+RULE = RULE + RULE_ADDENDA
 ASSUMPTIONS = ['slices have step None or 1 (quantifier of the property)',
                'for selections that retain no cell only result.size == 0 is asserted']
 BUDGET = {'quick': {'cases': 24000, 'shards': 16, 'seconds': 120},
